@@ -6,7 +6,7 @@
 //!   compared with the model's `Reopen` successor; then appends, retrievals and a truncate are exercised.
 //! `c09-drive`: random append / sync / truncate / crash-cut / reopen histories at real magnitudes on the
 //!   real API; one ndjson event per specification action, validated by Trace_Freezer.tla.
-use crate::util::{flag, opt, opt_u64, Rng, Scratch};
+use ckbv::util::{flag, opt, opt_u64, Rng, Scratch};
 use ckb_freezer::FreezerFilesBuilder;
 use serde::Deserialize;
 use serde_json::json;
@@ -56,7 +56,7 @@ fn flen(dir: &Path, id: u64) -> u64 {
 }
 
 /// `c09-states --in <ndjson> --scale K --max-size M [--jitter] [--seed S]`
-pub fn states(args: &[String]) {
+fn states(args: &[String]) {
     let input = opt(args, "--in").expect("--in");
     let k = opt_u64(args, "--scale", 5);
     let max = opt_u64(args, "--max-size", 4);
@@ -273,7 +273,7 @@ fn ev(w: &mut impl Write, name: &str, extra: serde_json::Value, o: &Obs) {
 }
 
 /// `c09-drive --seed S --hist N --steps M --max-size X --out <trace.ndjson>`
-pub fn drive(args: &[String]) {
+fn drive(args: &[String]) {
     let seed = opt_u64(args, "--seed", 1);
     let hist = opt_u64(args, "--hist", 20);
     let steps = opt_u64(args, "--steps", 30);
@@ -378,4 +378,17 @@ pub fn drive(args: &[String]) {
     }
     w.flush().unwrap();
     println!("{}", json!({"summary": {"histories": hist, "appends": appends, "crashes": crashes, "truncates": truncs, "rollovers": rolls, "max_appends_per_history": max_appends, "max_size": max}}));
+}
+
+fn main() {
+    let args: Vec<String> = std::env::args().collect();
+    let rest = &args[2.min(args.len())..];
+    match args.get(1).map(|s| s.as_str()) {
+        Some("states") => states(rest),
+        Some("drive") => drive(rest),
+        _ => {
+            eprintln!("usage: c09 states|drive ...");
+            std::process::exit(2);
+        }
+    }
 }
